@@ -156,20 +156,38 @@ Theorem C14_mul_coex_except_known : forall a b r,
   d_n r = d_n a * d_n b /\ coex_exp r = coex_exp a + coex_exp b.
 Proof. exact mul_coex. Qed.
 
-(* ParseDecimal on text that String() never prints: the fraction length is subtracted in int64
-   and an exponent below MinInt32 is an error.  (The positive side cannot overflow: ParseInt
-   bounds the exponent text by MaxInt32 and the fraction only lowers it.) *)
+(* ParseDecimal on text that String() never prints: the written exponent e is read as an int64, the
+   fraction length is subtracted in int64, and the ONLY range condition is that the result -- the
+   exponent of the value -- fits int32, on both sides and with or without a fraction part
+   (0.5d2147483648 is 5d2147483647).  A written exponent beyond int64 is an error. *)
 Theorem C14_parse_exponent_exact : forall ip fp e, plain ip -> Forall (fun x => is_dD x = false) fp ->
-  min_i32 <= e <= max_i32 -> zlen fp < two63z - two31 ->
+  - two63z <= e < two63z -> zlen fp < two63z - two31 ->
   dec_parse (ip ++ c_dot :: fp ++ c_d :: zstr e) =
-  if e - zlen fp <? min_i32 then Err else parsed (ip ++ fp) (e - zlen fp).
+  if in_i32 (e - zlen fp) then parsed (ip ++ fp) (e - zlen fp) else Err.
 Proof. exact parse_exponent_exact. Qed.
+Theorem C14_parse_exponent_exact_nofrac : forall ip e, plain ip -> - two63z <= e < two63z ->
+  dec_parse (ip ++ c_d :: zstr e) = if in_i32 e then parsed ip e else Err.
+Proof. exact parse_exponent_exact_nofrac. Qed.
+Theorem C14_parse_exponent_over64 : forall m e, Forall (fun x => is_dD x = false) m ->
+  ~ (- two63z <= e < two63z) -> dec_parse (m ++ c_d :: zstr e) = Err.
+Proof. exact parse_exponent_over64. Qed.
 Theorem C14_parsed_exponent : forall str e d, parsed str e = Ok d -> min_i32 < e <= max_i32 -> coex_exp d = e.
 Proof. exact parsed_exponent. Qed.
 Theorem C14_parse_exponent_rejected :
   dec_parse (s "0.1d-2147483648") = Err /\ dec_parse (s "1.00d-2147483647") = Err /\
   dec_parse (s "1.5d2147483647") = Ok (new_decimal 15 2147483646 false) /\
-  dec_parse (s "1d2147483648") = Err.
+  dec_parse (s "1d2147483648") = Err /\ dec_parse (s "1d-2147483649") = Err /\
+  dec_parse (s "0.5d2147483649") = Err /\ dec_parse (s "1d9223372036854775808") = Err /\
+  dec_parse (s "0.5d9223372036854775808") = Err /\ dec_parse (s "0.5d-9223372036854775808") = Err.
+Proof. vm_compute. repeat split. Qed.
+(* the written exponent is beyond int32, the exponent of the value is not: accepted (both ends of the range) *)
+Theorem C14_parse_exponent_value_range :
+  dec_parse (s "0.5d2147483648") = Ok (new_decimal 5 2147483647 false) /\
+  dec_parse (s "0.00d2147483649") = Ok (new_decimal 0 2147483647 false) /\
+  dec_parse (s "1d2147483647") = Ok (new_decimal 1 2147483647 false) /\
+  dec_parse (s "1d-2147483648") = Ok (new_decimal 1 (-2147483648) false) /\
+  dec_parse (s "1.5d-2147483647") = Ok (new_decimal 15 (-2147483648) false) /\
+  coex_exp (new_decimal 5 2147483647 false) = 2147483647.
 Proof. vm_compute. repeat split. Qed.
 
 (* ---- non-vacuity: concrete objects meet the hypotheses and compute ---------------------------- *)
